@@ -59,7 +59,7 @@ func buildAndCrash(c *c19Case) (*builtProg, error) {
 	if c.Funcs != 0 {
 		nf = c.Funcs
 	}
-	p := gen.GenProgFiles(rr, nf, c.Mismatch == "" && c.Idx%2 == 1)
+	p := gen.GenProgFiles(rr, nf, (c.Mismatch == "" && c.Idx%2 == 1) || c.Mismatch == "second-file-syntax")
 	dir := filepath.Join(os.Getenv("VERIF_WORK"), fmt.Sprintf("prog-%s-%d-%s-%v-%d", c.Toolchain, c.Idx, c.Mismatch, c.Naming, c.Funcs))
 	_ = os.RemoveAll(dir)
 	if err := os.MkdirAll(dir, 0o755); err != nil {
@@ -269,6 +269,11 @@ func c19Eval(r *core.Run, c *c19Case) {
 		case "symlink":
 			_ = os.Remove(src)
 			_ = os.Symlink(filepath.Join(bp.dir, "does-not-exist.go"), src)
+		case "second-file-syntax":
+			// only the second source file is unparsable: its frames stay as they are, the frames of main.go are typed
+			p2 := filepath.Join(bp.dir, "part2.go")
+			o2, _ := os.ReadFile(p2)
+			_ = os.WriteFile(p2, append(o2, []byte("\nfunc broken( {\n")...), 0o644)
 		case "empty":
 			_ = os.WriteFile(src, nil, 0o644)
 		case "other-package":
@@ -330,6 +335,20 @@ func c19Eval(r *core.Run, c *c19Case) {
 			if f == nil || cl.Func.ImportPath != "main" {
 				continue
 			}
+			if c.Mismatch == "second-file-syntax" {
+				if f.File != "" {
+					if len(cl.Args.Processed) != 0 {
+						report("augmented-without-source", fmt.Sprintf("frame %s carries a typed rendering %q although its source file part2.go does not parse", cl.Func.Name, cl.Args.Processed))
+						return
+					}
+					continue
+				}
+				if d := checkFrame(f, cl); d != "" && len(cl.Args.Processed) != 0 {
+					report("untruthful-argument", fmt.Sprintf("frame %s(%s) of main.go while part2.go does not parse: %s", cl.Func.Name, strings.Join(cl.Args.Processed, ", "), d))
+					return
+				}
+				continue
+			}
 			switch c.Mismatch {
 			case "":
 				if cl.Line == f.RecurLine && f.Recur > 0 {
@@ -375,7 +394,7 @@ func runC19(r *core.Run) {
 		tools = append(tools, "go1.26.8")
 	}
 	np := r.N(100, 1200)
-	mism := []string{"delete", "truncate", "shift", "arity", "syntax", "directory", "symlink", "empty", "other-package", "arity-int", "arity-less", "mutated-trace", "mutated-trace", "arity-int", "older-short", "older-exact", "older-long", "older-short", "older-exact"}
+	mism := []string{"delete", "truncate", "shift", "arity", "syntax", "directory", "symlink", "empty", "other-package", "arity-int", "arity-less", "mutated-trace", "mutated-trace", "arity-int", "older-short", "older-exact", "older-long", "older-short", "older-exact", "second-file-syntax", "second-file-syntax"}
 	nm := r.N(240, 3000)
 	type job struct{ c c19Case }
 	var jobs []c19Case
